@@ -30,7 +30,7 @@ fn model(variant: usize) -> ModelDef {
 }
 
 #[derive(Clone, Debug)]
-enum St { Notify(bool), M(MOp), Load, LoadF, SetModel(usize), SetAdapter(Vec<Vec<String>>), SetRm, Build, Enable(bool), SetEft, AddFn, AutoBuild(bool), AutoSave(bool), Rejected(MOp) }
+enum St { Notify(bool), M(MOp), Load, LoadF, SetModel(usize), SetAdapter(Vec<Vec<String>>), SetRm, SetRmSame, Build, Enable(bool), SetEft, AddFn, AutoBuild(bool), AutoSave(bool), Rejected(MOp) }
 
 fn st_line(s: &St) -> Vec<String> {
     match s {
@@ -41,6 +41,8 @@ fn st_line(s: &St) -> Vec<String> {
         St::SetModel(_) => vec!["e.setmodel".into()],
         St::SetAdapter(l) => vec![format!("e.setadapter\tmemory\t{}\t", enc_lists(l))],
         St::SetRm => vec!["e.setrm".into()],
+        // the installed manager handed to set_role_manager again (the call still rebuilds the links)
+        St::SetRmSame => vec!["e.keeprm".into(), "e.setrm\tkept".into()],
         St::Build => vec!["e.build".into()],
         St::Enable(v) => vec![format!("e.auto\tenforce\t{}", v)],
         St::SetEft => vec!["e.seteft".into()],
@@ -69,7 +71,7 @@ fn gen_step(rng: &mut Rng) -> St {
         17 => St::LoadF,
         18 | 19 => St::SetModel(rng.below(4)),
         20 => St::SetAdapter((0..rng.below(4)).map(|_| { let mut l = sv(&["p", "p"]); l.extend(gen_p(rng, &subs)); l }).collect()),
-        21 => St::SetRm,
+        21 => if rng.chance(1, 2) { St::SetRm } else { St::SetRmSame },
         22 => St::Build,
         23 | 24 => St::Enable(rng.chance(1, 2)),
         25 => St::SetEft,
@@ -169,7 +171,7 @@ pub fn run(rec: &mut Recorder, w: &mut World, tier: &str, seed: u64) {
     let padm = || St::M(MOp::Add("p".into(), "p".into(), sv(&["admin", "d1", "read", "allow"])));
     let gadd = || St::M(MOp::Add("g".into(), "g".into(), sv(&["alice", "admin"])));
     let grm = || St::M(MOp::Rm("g".into(), "g".into(), sv(&["alice", "admin"])));
-    for fin in [St::Build, St::SetRm, St::Load, St::SetModel(0), St::SetAdapter(vec![sv(&["p", "p", "admin", "d1", "read", "allow"]), sv(&["g", "g", "alice", "admin"])])] {
+    for fin in [St::Build, St::SetRm, St::SetRmSame, St::Load, St::SetModel(0), St::SetAdapter(vec![sv(&["p", "p", "admin", "d1", "read", "allow"]), sv(&["g", "g", "alice", "admin"])])] {
         hists.push(vec![padm(), St::AutoBuild(false), gadd(), St::AutoBuild(true), fin.clone()]);
         hists.push(vec![padm(), gadd(), St::AutoBuild(false), grm(), St::AutoBuild(true), fin.clone()]);
         hists.push(vec![padm(), St::AutoBuild(false), gadd(), fin.clone(), St::AutoBuild(true), fin.clone()]);
@@ -186,7 +188,7 @@ pub fn run(rec: &mut Recorder, w: &mut World, tier: &str, seed: u64) {
             let descr: Vec<String> = hist.iter().take(step).map(|s| st_line(s).join(" / ").replace('\t', " ")).collect();
             rec.fail("stale-cached-decision", format!("after {}: cached enforcer answered {} where the uncached twin answers {} (query kind {})", descr.join(" ; "), cached[i], plain[i], ["enforce", "enforce_with_context(2)", "context r2/p2/e2/m3", "context r2/p2/e2/m2", "context r2/p2/e/m2"][i % 5]));
         }
-        for s in hist { rec.count(&format!("op:{}", match s { St::M(op) => op.kind(), St::Load => "load_policy", St::LoadF => "load_filtered_policy", St::SetModel(_) => "set_model", St::SetAdapter(_) => "set_adapter", St::SetRm => "set_role_manager", St::Build => "build_role_links", St::Enable(_) => "enable_enforce", St::SetEft => "set_effector", St::AddFn => "add_function", St::AutoBuild(_) => "auto_build", St::AutoSave(_) => "auto_save", St::Notify(_) => "auto_notify", St::Rejected(_) => "rejected" })); }
+        for s in hist { rec.count(&format!("op:{}", match s { St::M(op) => op.kind(), St::Load => "load_policy", St::LoadF => "load_filtered_policy", St::SetModel(_) => "set_model", St::SetAdapter(_) => "set_adapter", St::SetRm => "set_role_manager", St::SetRmSame => "set_role_manager(installed)", St::Build => "build_role_links", St::Enable(_) => "enable_enforce", St::SetEft => "set_effector", St::AddFn => "add_function", St::AutoBuild(_) => "auto_build", St::AutoSave(_) => "auto_save", St::Notify(_) => "auto_notify", St::Rejected(_) => "rejected" })); }
         rec.nontrivial_case(&format!("{:?}", hist));
         if hi == n_ex { rec.sample(hist.iter().take(8).map(|s| st_line(s).join(" / ").replace('\t', " ")).collect::<Vec<_>>().join(" ; ")); }
     }
